@@ -2,6 +2,8 @@
 import sys, json, warnings
 warnings.filterwarnings("ignore")
 sys.path.insert(0, "/verif")
+import os
+if os.environ.get("VERIF_REPO"): sys.path.insert(0, os.environ["VERIF_REPO"])
 import importlib
 pid, pat = sys.argv[1], sys.argv[2]
 verbose = "-v" in sys.argv
